@@ -685,6 +685,11 @@ def run(tier: str, driver_ok: bool) -> Result:
     return res
 
 
+def _case_key(case: Any) -> Any:
+    """certificates are generated afresh in every run: compare cases without their volatile fields"""
+    return {k: v for k, v in case.items() if k not in ("der_sha256", "list")} if isinstance(case, dict) else case
+
+
 def replay(obj: dict[str, Any]) -> Any:
     v = obj.get("violation") or obj.get("disagreement") or {}
     case = v.get("case", {})
@@ -693,5 +698,5 @@ def replay(obj: dict[str, Any]) -> Any:
     for name, fn in STREAMS:
         if name == stream or stream is None:
             fn(res, obj.get("tier", "quick"), True)
-    hits = [x for x in res.violations + res.disagreements if x.get("case") == case]
+    hits = [x for x in res.violations + res.disagreements if _case_key(x.get("case")) == _case_key(case)]
     return {"case": case, "reproduced": bool(hits), "now": hits[:3], "violations_in_stream": len(res.violations), "disagreements_in_stream": len(res.disagreements)}
